@@ -457,6 +457,94 @@ def calendar_table(chk):
     chk.floor('date readers', n, 2)
 
 
+def utf8_tables(chk):
+    """Names are compared after conversion to UTF-8 in the pad; the decoder must accept only the shortest form (RFC 3629 section 3: a
+    two-byte sequence encodes U+0080..U+07FF, three bytes U+0800..U+FFFF, four bytes U+10000..U+10FFFF) - an overlong sequence that
+    is accepted lets a certificate carry a name whose bytes differ from the host name it then matches - and the encoder must emit
+    that same table.  Rows are read from the bytecode of the two words: for the decoder (lead-byte bound, payload mask, number of
+    continuation bytes, lowest and highest code point), for the encoder (code-point bound, lead shift, lead marker, continuation
+    shifts); both compared with the table generated from the RFC's definition."""
+    R = 'utf8-tables'
+    P = t0.Program('x509_minimal')
+    marks = {0xC0, 0xE0, 0xF0, 0xF8, 0x7FF, 0xFFFF, 0x10FFFF, 0x800, 0x10000}
+    dec = enc = None
+    for wid, w in P.words.items():
+        ins = list(w.ins.values())
+        cs = set(i.arg for i in ins if i.kind == 'const')
+        if len(cs & marks) >= 3:
+            if any(i.kind == 'native' and i.name == '>>' for i in ins):
+                enc = w
+            elif any(i.kind == 'native' and i.name == 'and' for i in ins):
+                dec = w
+    if dec is None or enc is None:
+        raise AnalysisBroken('x509_minimal: UTF-8 decoder / encoder words not found')
+
+    def name(i):
+        return i.name if i.kind == 'native' else i.kind
+    # --- decoder rows
+    ins = list(dec.ins.values())
+    rows, plain = [], []
+    for k, i in enumerate(ins):
+        if i.kind == 'const' and k + 2 < len(ins) and name(ins[k + 1]) == '<' and ins[k + 2].kind == 'jumpifnot':
+            body = []
+            for j in ins[k + 3:]:
+                if j.kind in ('jump', 'ret'):
+                    body.append(j)
+                    break
+                body.append(j)
+            consts = [j.arg for j in body if j.kind == 'const']
+            calls = [j for j in body if j.kind == 'call']
+            if calls and any(name(j) == 'and' for j in body) and len(consts) == 4:
+                rows.append((i.arg, consts[0], consts[1], consts[2], consts[3], i))
+            else:
+                plain.append((i.arg, [name(j) for j in body], consts, i))
+    ref = [(0xE0, 0x1F, 1, 0x80, 0x7FF), (0xF0, 0x0F, 2, 0x800, 0xFFFF), (0xF8, 0x07, 3, 0x10000, 0x10FFFF)]
+    inst = 'read-UTF8 (x509_minimal): multi-byte rows (lead bound, mask, continuation bytes, lowest, highest code point) are RFC 3629\'s'
+    got = [r[:5] for r in rows]
+    if got == ref:
+        chk.ok(R, inst, 'src/x509/asn1.t0')
+    else:
+        chk.violation(R, inst, 'src/x509/x509_minimal.c', 'rows read from the bytecode: %s; expected %s: %s' % (
+            [tuple(hex(x) for x in r) for r in got], [tuple(hex(x) for x in r) for r in ref],
+            'a lowest code point below the table\'s accepts overlong (non-shortest) encodings' if len(got) == 3 and any(g[3] < r[3] for g, r in zip(got, ref))
+            else 'the decoder does not implement the UTF-8 table'), key=R + ' dec rows')
+    inst = 'read-UTF8 (x509_minimal): a lead byte below 0x80 is the code point itself, 0x80..0xBF as lead byte is an error'
+    okp = len(plain) >= 2 and plain[0][0] == 0x80 and plain[0][1][:1] == ['ret'] and plain[1][0] == 0xC0 and plain[1][1][:3] == ['drop', 'const', 'ret'] and plain[1][2] == [0]
+    if okp:
+        chk.ok(R, inst, 'src/x509/asn1.t0')
+    else:
+        chk.violation(R, inst, 'src/x509/x509_minimal.c', 'single-byte / stray-continuation rows read from the bytecode: %s' % [(hex(a), b) for a, b, _, _ in plain[:2]], key=R + ' dec plain')
+    inst = 'read-UTF8 (x509_minimal): the assembled value is range-checked against the row (lowest, highest) and replaced by 0 when outside'
+    tail = [name(j) for j in ins[-6:]]
+    if tail[-5:] == ['jumpif', 'drop', 'const', 'ret'][-5:] or tail[-4:] == ['jumpif', 'drop', 'const', 'ret']:
+        chk.ok(R, inst, 'src/x509/asn1.t0')
+    else:
+        chk.violation(R, inst, 'src/x509/x509_minimal.c', 'the word does not end with `between? ifnot drop 0 then` (%s)' % tail, key=R + ' dec tail')
+    # --- encoder rows: bound, lead shift, lead marker, continuation shifts
+    ins = list(enc.ins.values())
+    erows = []
+    cur = None
+    bound = None
+    for k, i in enumerate(ins):
+        if i.kind == 'const' and k + 2 < len(ins) and name(ins[k + 1]) == '<' and ins[k + 2].kind == 'jumpifnot':
+            bound = i.arg
+        if i.kind == 'const' and k + 3 < len(ins) and name(ins[k + 1]) == '>>' and ins[k + 2].kind == 'const' and name(ins[k + 3]) == 'or':
+            cur = [bound, i.arg, ins[k + 2].arg, []]
+            erows.append(cur)
+            bound = None
+        elif cur is not None and i.kind == 'const' and k + 1 < len(ins) and ins[k + 1].kind == 'call' and k > 0 and ins[k - 1].kind == 'getlocal':
+            cur[3].append(i.arg)
+        if i.kind in ('jump', 'ret'):
+            cur = None
+    eref = [[0x800, 6, 0xC0, [0]], [0xFFFF, 12, 0xE0, [6, 0]], [None, 18, 0xF0, [12, 6, 0]]]
+    inst = 'encode-UTF8 (x509_minimal): rows (code-point bound, lead shift, lead marker, continuation shifts) are RFC 3629\'s'
+    norm = [[0xFFFF if r[0] == 0x10000 else r[0]] + r[1:] for r in erows]      # U+FFFF is refused before (noncharacter): both bounds select the same rows
+    if norm == eref:
+        chk.ok(R, inst, 'src/x509/asn1.t0')
+    else:
+        chk.violation(R, inst, 'src/x509/x509_minimal.c', 'rows read from the bytecode: %s; expected %s' % (erows, eref), key=R + ' enc rows')
+
+
 def oid_table(chk):
     """The certificate engines recognise algorithms, key types, curves, name attributes and extensions by comparing DER object
     identifiers with constants of the bytecode data block.  One wrong byte there and an extension silently stops being recognised
@@ -646,6 +734,7 @@ def run(tier):
     name_compare_vectors(chk)
     calendar_table(chk)
     oid_table(chk)
+    utf8_tables(chk)
     ca_check_unavoidable(chk)
     min_rsa_size_signed(chk)
     from . import c11 as _c11
